@@ -72,6 +72,8 @@ type Path struct {
 	reached map[string]map[string]string // label -> model
 	notes   []string
 	mapPerm bool
+	conform *conformSample
+	labels  []string // ordered assertion / reachability labels met on this path
 	unwindLimit int
 
 	funcs map[*ssa.Function]bool // executed from SSA
@@ -545,6 +547,7 @@ func (p *Path) trace() []string {
 }
 
 func (p *Path) doAssert(fr *frame, cond value, label string) {
+	p.labels = append(p.labels, "A:"+label)
 	pos := ""
 	if fr != nil && fr.caller != nil {
 		pos = p.eng.prog.Fset.Position(fr.callpos).String()
@@ -588,6 +591,7 @@ func (p *Path) doAssert(fr *frame, cond value, label string) {
 }
 
 func (p *Path) doReach(label string) {
+	p.labels = append(p.labels, "R:"+label)
 	if _, ok := p.reached[label]; ok {
 		return
 	}
